@@ -1204,6 +1204,74 @@ def _lookup_chain(node, what):
     return attr, target, order
 
 
+def _convention_part(tree, out, spans):
+    """_transform_affine_to_convention: which convention the flip flags run over, where a target letter is looked up, the opposite for absent
+    letters, which arguments of _transform_affine_matrix are passed"""
+    from py2lean import strip_doc
+    fn = find_func(tree, '_transform_affine_to_convention')
+    body = strip_doc(fn.body)
+    if len(body) != 6:
+        raise Unsupported(f'_transform_affine_to_convention has {len(body)} statements, 6 expected')
+    _expect(body[0], 'from_reference_normed = _normalize_patient_orientation(from_reference_convention)', '_transform_affine_to_convention')
+    _expect(body[1], 'to_reference_normed = _normalize_patient_orientation(to_reference_convention)', '_transform_affine_to_convention')
+    side = {'from_reference_normed': 'f', 'to_reference_normed': 't'}
+    fl = body[2]
+    if not (isinstance(fl, ast.Assign) and ast.unparse(fl.targets[0]) == 'flip_reference' and isinstance(fl.value, ast.ListComp)
+            and len(fl.value.generators) == 1 and not fl.value.generators[0].ifs):
+        raise Unsupported('_transform_affine_to_convention: flip_reference')
+    gen = fl.value.generators[0]
+    e = fl.value.elt
+    if not (isinstance(e, ast.Compare) and len(e.ops) == 1 and isinstance(e.ops[0], (ast.In, ast.NotIn)) and _src(e.left) == _src(gen.target)
+            and _src(gen.iter) in side and _src(e.comparators[0]) in side):
+        raise Unsupported(f'_transform_affine_to_convention: flip_reference = {_src(fl.value)}')
+    out.append('/-- `_transform_affine_to_convention`: `flip_reference` has one flag per letter of (iterated convention), set when the letter is\n'
+               '(absent from / present in) the (tested convention): (iterated, tested, flag means absent); \'f\' = from, \'t\' = to -/\n'
+               f"def conventionFlipRule : Char × Char × Bool := ('{side[_src(gen.iter)]}', '{side[_src(e.comparators[0])]}', {str(isinstance(e.ops[0], ast.NotIn)).lower()})")
+    _expect(body[3], 'permute_reference = []', '_transform_affine_to_convention')
+    lp = body[4]
+    if not (isinstance(lp, ast.For) and _src(lp.iter) in side and len(lp.body) == 1 and isinstance(lp.body[0], ast.If)):
+        raise Unsupported('_transform_affine_to_convention: permutation loop')
+    d = _src(lp.target)
+    br = lp.body[0]
+    if not (isinstance(br.test, ast.Compare) and isinstance(br.test.ops[0], ast.NotIn) and _src(br.test.left) == d and _src(br.test.comparators[0]) in side):
+        raise Unsupported(f'_transform_affine_to_convention: loop test {_src(br.test)}')
+    look = _src(br.test.comparators[0])
+    if not (len(br.body) == 2 and _src(br.body[0]) == f'd_ = PATIENT_ORIENTATION_OPPOSITES[{d}]'
+            and _src(br.body[1]) == f'permute_reference.append({look}.index(d_))'
+            and len(br.orelse) == 1 and _src(br.orelse[0]) == f'permute_reference.append({look}.index({d}))'):
+        raise Unsupported('_transform_affine_to_convention: loop body: ' + _src(br)[:200])
+    out.append('/-- `_transform_affine_to_convention`: `permute_reference` has one entry per letter of (iterated convention): the index, in the\n'
+               '(searched convention), of the letter itself or - when it is absent there - of its opposite: (iterated, searched) -/\n'
+               f"def conventionPermuteRule : Char × Char := ('{side[_src(lp.iter)]}', '{side[look]}')")
+    ret = body[5]
+    if not (isinstance(ret, ast.Return) and isinstance(ret.value, ast.Call) and ast.unparse(ret.value.func) == '_transform_affine_matrix' and not ret.value.args):
+        raise Unsupported('_transform_affine_to_convention: return')
+    kws = {k.arg: _src(k.value) for k in ret.value.keywords}
+    want = {'affine': 'affine', 'shape': 'shape', 'permute_indices': 'None', 'permute_reference': 'permute_reference', 'flip_indices': 'None',
+            'flip_reference': 'flip_reference'}
+    if kws != want:
+        raise Unsupported(f'_transform_affine_to_convention: arguments of _transform_affine_matrix {kws}')
+    spans.append(fn)
+    # _transform_affine_matrix: flips are applied BEFORE the permutation of the reference axes (statement order)
+    fm = find_func(tree, '_transform_affine_matrix')
+    order = []
+    for st in strip_doc(fm.body):
+        t = _src(st)
+        for key, tag in (('if flip_indices is not None', 'flip_indices'), ('if flip_reference is not None', 'flip_reference'),
+                         ('if permute_indices is not None', 'permute_indices'), ('if permute_reference is not None', 'permute_reference')):
+            if t.startswith(key):
+                order.append(tag)
+    if sorted(order) != sorted(['flip_indices', 'flip_reference', 'permute_indices', 'permute_reference']):
+        raise Unsupported(f'_transform_affine_matrix: steps {order}')
+    out.append('/-- `_transform_affine_matrix`: the order in which its four optional steps are applied -/\n'
+               'def affineTransformOrder : List String := [' + ', '.join(f'"{x}"' for x in order) + ']')
+    for key, txt in (('flip_reference', 'row_inv = np.diag([*[-1 if x else 1 for x in flip_reference], 1])'), ('flip_reference', 'transformed = row_inv @ transformed'),
+                     ('permute_reference', 'transformed = transformed[[*permute_reference, 3], :]')):
+        if sum(1 for n in ast.walk(fm) if isinstance(n, ast.Assign) and _src(n) == txt) != 1:
+            raise Unsupported(f'_transform_affine_matrix: `{txt}` not found')
+    spans.append(fm)
+
+
 def _images_part(tree, out, spans):
     for cls, lean, inv in (('PixelToReferenceTransformer', 'pixToRefForImage', False), ('ReferenceToPixelTransformer', 'refToPixForImage', True),
                            ('ImageToReferenceTransformer', 'imgToRefForImage', False), ('ReferenceToImageTransformer', 'refToImgForImage', True)):
@@ -1551,6 +1619,7 @@ def _images_part(tree, out, spans):
         spans.append(t_)
     ortho_call('get_closest_patient_orientation', 'closestRequireUnit')
     ortho_call('create_affine_matrix_from_components', 'componentsRequireUnit')
+    _convention_part(tree, out, spans)
     # ---- get_image_coordinate_system: the attributes that decide, in the order they are looked at
     fn = find_func(tree, 'get_image_coordinate_system')
     body = strip_doc(fn.body)
